@@ -6,6 +6,7 @@ import (
 	"crypto/ecdsa"
 	"crypto/ed25519"
 	"crypto/sha256"
+	"encoding/asn1"
 	"encoding/json"
 	"fmt"
 	"math/big"
@@ -285,6 +286,33 @@ func genC15(seed int64, tier string) []caseOut {
 			}
 		}
 	}
+	// an Ed25519 public key whose last octet is zero, offered with that octet left out (31 octets; a
+	// decoder that pads short values would restore the key), with a zero octet more, and whole
+	{
+		var k *keyPair
+		for c := 0; k == nil; c++ {
+			sd := sha256.Sum256([]byte(fmt.Sprintf("ed25519-public-key-ending-in-zero-%d", c)))
+			cand := ed25519.NewKeyFromSeed(sd[:])
+			if pub := cand.Public().(ed25519.PublicKey); pub[len(pub)-1] == 0 {
+				k = &keyPair{kind: "Ed25519", alg: "EdDSA", ed: cand}
+			}
+		}
+		sg := k.signer()
+		payload := []byte(`{"key":"ends in a zero octet"}`)
+		if compact, err := signutil.SignPayload(payload, sg); err == nil {
+			pub := []byte(k.ed.Public().(ed25519.PublicKey))
+			add("Ed25519:key-ending-in-zero", sg.jwk, compact, true, string(payload))
+			short := *sg.jwk
+			short.X = b64(pub[:len(pub)-1])
+			add("Ed25519:key-ending-in-zero-last-octet-left-out", &short, compact, false, "")
+			long := *sg.jwk
+			long.X = b64(append(append([]byte{}, pub...), 0))
+			add("Ed25519:key-ending-in-zero-one-octet-more", &long, compact, false, "")
+			empty := *sg.jwk
+			empty.X = ""
+			add("Ed25519:key-x-empty", &empty, compact, false, "")
+		}
+	}
 	for round := 0; round < per; round++ {
 		keys := map[string]*keyPair{}
 		for _, kind := range keyKinds {
@@ -377,6 +405,10 @@ func genC15(seed int64, tier string) []caseOut {
 						add(kind+":signature-variable-width", sg.jwk, withSig(vw), false, "")
 					}
 					add(kind+":signature-zero-prefixed", sg.jwk, withSig(append([]byte{0}, sig...)), false, "")
+					// the same (r, s) in the ASN.1 DER form other ECDSA interfaces use: not a JWS signature
+					if der, e := asn1.Marshal(struct{ R, S *big.Int }{rr, ss}); e == nil {
+						add(kind+":signature-der-encoded", sg.jwk, withSig(der), false, "")
+					}
 				}
 				// malformed compact forms
 				add(kind+":two-segments", sg.jwk, parts[0]+"."+parts[1], false, "")
